@@ -4,6 +4,7 @@ Every model is exact on concrete arguments (it simply calls the builtin) and is
 validated differentially against CPython on each run (symx.selftest).
 """
 import builtins
+import math as _math
 import datetime as _dt
 import re as _re
 import string as _string
@@ -241,8 +242,8 @@ def float_repr(text):
                 if es and ctx.decide_b(zor([ch_eq(es[0], "+"), ch_eq(es[0], "-")])):
                     eneg = ctx.decide_b(ch_eq(es[0], "-"))
                     es = es[1:]
-                if not es or len(es) > 2:
-                    raise Unsupported("repr of a float with an exponent of more than two digits")
+                if not es or len(es) > 3:
+                    raise Unsupported("repr of a float with an exponent of more than three digits")
                 exp = 0
                 for e in es:
                     for dv in range(10):
@@ -255,9 +256,17 @@ def float_repr(text):
                 break
             raise Unsupported("repr of a float written with underscores, non-ASCII digits, inf or nan")
         (fp if seen_dot else ip).append(c)
+    if exp and abs(exp) > 30:
+        # far outside the range of a double: overflow to inf / underflow to zero (the band in between is not modelled)
+        if not ip or not ctx.decide_b(znot(B(ch_eq(ip[0], "0")))):
+            raise Unsupported("repr of a float with an exponent beyond +-30 and no leading non-zero digit")
+        dec_exp = len(ip) - 1 + exp
+        if dec_exp >= 310:
+            return (["-"] if neg else []) + list("inf")
+        if dec_exp <= -345:
+            return (["-"] if neg else []) + list("0.0")
+        raise Unsupported("repr of a float with an exponent beyond +-30")
     if exp:
-        if abs(exp) > 30:
-            raise Unsupported("repr of a float with an exponent beyond +-30")
         digits, pos = ip + fp, len(ip) + exp
         if pos <= 0:
             ip, fp = [], ["0"] * (-pos) + digits
@@ -413,7 +422,12 @@ def sym_str(x="", *a):
 
 
 def sym_repr(x):
-    if _isinstance(x, (SymStr, SymInt, SymFloat, SymBool)):
+    if _isinstance(x, SymFloat):
+        return SymStr.mk(float_repr(SymStr.of(x.text)))        # repr(float) is its canonical text
+    if _isinstance(x, SymInt) and not _isinstance(x, SymBool):
+        return sym_str(x)
+    if _isinstance(x, (SymStr, SymInt, SymBool)):
+        # the repr of a string (quotes, escapes) is only ever put into messages by pvl: a placeholder
         return "<sym>"
     return builtins.repr(x)
 
@@ -445,6 +459,38 @@ def _norm_cls(t):
     if t is TimezoneShim or t is SymTz:
         return _dt.timezone
     return t
+
+
+def sym_isfinite(x):
+    """math.isfinite / isinf / isnan on a text-based symbolic float: decided on its canonical repr"""
+    if _isinstance(x, SymFloat):
+        r = SymStr.mk(float_repr(SymStr.of(x.text)))
+        return not (r == "inf" or r == "-inf" or r == "nan")
+    return _math.isfinite(x)
+
+
+def sym_isinf(x):
+    if _isinstance(x, SymFloat):
+        r = SymStr.mk(float_repr(SymStr.of(x.text)))
+        return bool(r == "inf" or r == "-inf")
+    return _math.isinf(x)
+
+
+def sym_isnan(x):
+    if _isinstance(x, SymFloat):
+        return bool(SymStr.mk(float_repr(SymStr.of(x.text))) == "nan")
+    return _math.isnan(x)
+
+
+class MathShim:
+    """stands in for the math module inside the instrumented pvl modules"""
+
+    def __getattr__(self, n):
+        return getattr(_math, n)
+
+    isfinite = staticmethod(sym_isfinite)
+    isinf = staticmethod(sym_isinf)
+    isnan = staticmethod(sym_isnan)
 
 
 def sym_isinstance(x, t):
